@@ -10,6 +10,7 @@ import common as C
 import verde as vd
 
 ID = "C16"
+TRANSLATED = "mask"        # Gen/Mask.lean (convexhull_mask, coordinates= form, statement by statement) is regenerated from /repo and bridged to the model in Props/C16.lean
 FILES = ["verde/mask.py", "verde/projections.py", "verde/utils.py"]
 RULE = ("corpus + seeded data sets with non-degenerate hulls (integer lattices and random dyadic clouds, 3..12 points quick / 30 thorough) with query "
         "points inside, outside and on the hull boundary, coordinate scales 1e-3..1e7 and offsets, optional projections, array and grid forms of "
